@@ -90,6 +90,12 @@ def check(item, tier):
                 r.count('skipped_unreachable_states')
                 return r
         rmax = float(np.max(mdp.reward_matrix))
+        try:
+            bigger = build.SpecMDP(Spec(build.with_zero_entry(spec_item, 'outside')[0]), SLAB[li], ALAB[li], explicit_lists=True)
+            if float(np.max(bigger.reward_matrix)) != rmax or len(bigger.state_list) == len(mdp.state_list):
+                bigger = None
+        except Exception:
+            bigger = None
         opt = F(rmax).limit_denominator(1000) / (1 - spec.gamma)
         acts = spec.acts[0]
         for (m, episodes) in cfgs:
@@ -116,10 +122,11 @@ def check(item, tier):
                 learner = rm.RMAX(episodes=episodes, rmax=rmax, num_transition_samples=m, bellman_convergence_diff=diff, seed=seed,
                                   event_listener_class=Listener)
                 if reuse:
-                    # learner objects are reusable: one earlier training run on the same problem (default answers, not explored)
+                    # learner objects are reusable: one earlier training run (default answers, not explored) on the same problem,
+                    # or on a sibling with one more listed state (tables of another size)
                     with patched_random(Explorer(bound=0, max_points=600)):
                         try:
-                            learner.train_on(mdp)
+                            learner.train_on(bigger if (m + episodes) % 4 == 1 and bigger is not None else mdp)
                         except BaseException:
                             pass
                 del log[:]
